@@ -163,6 +163,12 @@ Definition hcur_check (r : (int * int * bool * int * int * bool * int) * (int * 
   let c4 := negb skipped || (zi einte =? zi z + 1) in
   ((if c1 then 0 else 1) + (if c2 then 0 else 2) + (if c4 then 0 else 4))%nat.
 
+(* crop skip against the same harvest call without skip: (NAOS[0], DSUMM, NFOS[0]) without skip, (NSAS, NLAS, NDIR) of entry k, real values *)
+Definition skip_check (r : (float * float * float) * (float * float * float) * (float * float * float)) : nat :=
+  let '((a, d, f), (nsas, nlas, ndir), (a', d', f')) := r in
+  let '(ma, md, mf) := skip_payload a d f nsas nlas ndir in
+  if float_same ma a' && float_same md d' && float_same mf f' then 0%nat else 1%nat.
+
 Fixpoint mismatches {A} (chk : A -> nat) (i : nat) (l : list A) : list (nat * nat) :=
   match l with
   | [] => []
